@@ -1515,7 +1515,7 @@ PROPS['C13'] = dict(roots=[r'^TwoFloat\.(sqrt|cbrt|hypot|powi|recip)$', r'^num_i
 
 # ================================================================================================ C14 exponential family
 
-def gen_C14(r, n):
+def gen_C14(r, n, thorough=False):
     c = Cases()
     def add(fn, x, **kw):
         c.add('TwoFloat.%s %s' % (fn, w2(x)), kind=fn, x=x, **kw)
@@ -1560,6 +1560,9 @@ def gen_C14(r, n):
         # thresholds
         add('exp', tf_in(r, 10, 30), thr=True)
         add('exp2', tf_in(r, 10, 30), thr=True)
+    if thorough:
+        for kk in range(-1022, 1023):          # exhaustive: exp2(k) = 2^k for every integer k in [-1022, 1022]
+            add('exp2', (float(kk), 0.0), exact=True)
     for z in ((0.0, 0.0), (-0.0, 0.0)):
         add('exp', z, zero=True); add('exp_m1', z, zero=True); add('exp2', z, exact=True)
     c.add('TwoFloat.powf %s %s' % (w2((0.0, 0.0)), w2((0.0, 0.0))), kind='powf_00')
@@ -1639,12 +1642,15 @@ def chk_C14(c, ans):
                 out.append(fail(i, 'powf_0_0_invalid', a))
     return out
 
-PROPS['C14'] = dict(roots=[r'^TwoFloat\.(exp|exp_m1|exp2|powf)$'], gen=gen_C14, chk=chk_C14, n_quick=300, n_thorough=15000)
+PROPS['C14'] = dict(roots=[r'^TwoFloat\.(exp|exp_m1|exp2|powf)$'], gen=gen_C14, chk=chk_C14, n_quick=300, n_thorough=15000, gen_tier=True)
 
 # ================================================================================================ C15 logarithms
 
-def gen_C15(r, n):
+def gen_C15(r, n, thorough=False):
     c = Cases()
+    if thorough:
+        for kk in range(-1000, 961):           # exhaustive: log2(2^k) = k for every integer k in [-1000, 960]
+            c.add('TwoFloat.log2 %s' % w2((math.ldexp(1.0, kk), 0.0)), kind='log2_pow2')
     for _ in range(n):
         k = r.below(8)
         if k < 4:
@@ -1741,7 +1747,7 @@ def ident2_C15(c2, ans):
             c3.add('%s %s %s' % (TT('Div'), mt['lnx'], a), want=mt['want_final'], clause='log_is_ln_div_ln')
     return c3
 
-PROPS['C15'] = dict(roots=[r'^TwoFloat\.(ln|ln_1p|log|log2|log10)$'], gen=gen_C15, chk=chk_C15, n_quick=150, n_thorough=8000,
+PROPS['C15'] = dict(roots=[r'^TwoFloat\.(ln|ln_1p|log|log2|log10)$'], gen=gen_C15, chk=chk_C15, n_quick=150, n_thorough=8000, gen_tier=True,
                     followups=[(ident_C15, chk_ident_C15, True), (ident2_C15, chk_want, True)])
 
 # ================================================================================================ C16 sin cos tan
